@@ -1,8 +1,8 @@
 """C18 — BelT wide-block encryption conforms and rejects short input untouched."""
 from ..common import hx
 from . import conf
-RULE = ("wblock enc/dec for EVERY length 0..=300 (random + structured contents; thorough: 30 contents per length and lengths up "
-        "to 4096), compared with the Lean model of STB 34.101.31; round trip both orders and 'short input: error, buffer "
+RULE = ("wblock enc/dec for EVERY length 0..=300 plus lengths around the 256- and 512-round counter boundaries (2032..2049, "
+        "4080..4096, 5003; thorough: 30 contents per length and lengths up to 33000), compared with the Lean model of STB 34.101.31; round trip both orders and 'short input: error, buffer "
         "unchanged' evaluated directly on the crate")
 
 
@@ -13,9 +13,12 @@ def run(chk, tier):
     quick = tier == "quick"
     r = chk.rng
     ops = []
-    lens = list(range(0, 301)) + ([] if quick else [512, 1000, 1024, 1025, 4095, 4096])
+    # beyond 300: lengths around the points where the round counter (2n rounds, n = ceil(len/16)) crosses a byte
+    # boundary (256 rounds at 2033 bytes, 512 at 4081) — a truncated counter is invisible below them — plus odd tails
+    big = [512, 1000, 2032, 2033, 2047, 2049, 4080, 4081, 4096, 5003]
+    lens = list(range(0, 301)) + (big if quick else big + [1024, 1025, 4095, 8191, 8192, 12345, 16400, 33000])
     for L in lens:
-        for i in range(2 if quick else 30):
+        for i in range((2 if quick else 30) if L <= 300 else (1 if quick else 3)):
             k = r.structured(32) if i % 2 else r.bytes(32)
             d = r.structured(L) if i % 3 == 0 else r.bytes(L)
             ops.append(f"wblock enc {hx(k)} {hx(d)}")
